@@ -287,7 +287,11 @@ class Gen:
             if np.all(np.abs(self.allvals(x)) <= 4) and self.dtype(x).kind in "if":
                 if self.dtype(x).kind == "i" and np.any(self.allvals(x) < 0):
                     raise Reject("pow negative int exponent")
-                return self.add("pow", [ps.enc_scalar(self.rng.choice([2, 2.0, 0.5])), x])
+                bases: list[Any] = [2, 2.0, 0.5]
+                if self.dtype(x).kind == "i":
+                    # negative bases only with integer exponents (NumPy: nan otherwise)
+                    bases += [-2, -2.0, -0.5, -3]
+                return self.add("pow", [ps.enc_scalar(self.rng.choice(bases)), x])
             raise Reject("pow")
         divisor = op in ("truediv", "floordiv", "mod")
         if r < 0.6:
